@@ -1,0 +1,72 @@
+// SPDX-FileCopyrightText: 2026 The Pion community <https://pion.ly>
+// SPDX-License-Identifier: MIT
+
+//go:build verif
+
+// Contracts (comment-only) for property C05: role conflicts are resolved by
+// tie-breaker exactly as RFC 8445 section 7.3.1.1 prescribes.
+// a.gSent counts datagrams handed to a local candidate's socket by agent code.
+
+package ice
+
+//@ ghost field ice.Agent.gSent int
+
+// keeps(ctrl, tbL, tbR): the agent keeps its role and answers 487.
+//@ spec func keeps(ctrl bool, tbL int, tbR int) bool = (ctrl && tbL >= tbR) || (!ctrl && tbL < tbR)
+
+//@ iface ice.Candidate.writeTo (this, raw, dst) (n, err)
+//@   modifies fam:H_ice.candidateBase.lastSent
+
+//@ func (*Agent).sendSTUN
+//@   props C05 C02
+//@   requires a != nil && msg != nil
+//@   modifies a.gSent, fam:H_ice.candidateBase.lastSent
+//@   site call writeTo#1 ghost a.gSent := a.gSent + 1
+//@   ensures sent-once: a.gSent == old(a.gSent) + 1
+
+//@ func (*Agent).role
+//@   props C05
+//@   requires a != nil
+//@   pure
+//@   ensures (a.isControlling != 0) == (result == 0)
+
+//@ func (*Agent).setSelector
+//@   props C05 C03
+//@   requires a != nil
+//@   modifies a.selector, a.selectorLock
+//@   ensures fresh-selector: a.selector != nil && fresh(cast(a.selector, *controllingSelector))
+//@   ensures lite-wrapper: a.lite ==> istype(a.selector, *liteSelector)
+//@   ensures full-controlling: !a.lite && a.isControlling != 0 ==> istype(a.selector, *controllingSelector)
+//@   ensures full-controlled: !a.lite && a.isControlling == 0 ==> istype(a.selector, *controlledSelector)
+//@   ensures lite-inner-controlling: a.lite && a.isControlling != 0 ==> istype(cast(a.selector, *liteSelector).pairCandidateSelector, *controllingSelector)
+//@   ensures lite-inner-controlled: a.lite && a.isControlling == 0 ==> istype(cast(a.selector, *liteSelector).pairCandidateSelector, *controlledSelector)
+//@   ensures role-unchanged: a.isControlling == old(a.isControlling)
+
+//@ func (*Agent).handleRoleConflict
+//@   props C05
+//@   requires a != nil && msg != nil && remoteTieBreaker != nil
+//@   modifies a.isControlling, a.selector, a.selectorLock, a.gSent, fam:H_ice.candidateBase.lastSent
+//@   site call Build#1 assert error-response: unbox(arg0[1], stun.MessageType) == stun.BindingError
+//@   site call Build#1 assert code-487: unbox(arg0[2], stun.ErrorCodeAttribute).Code == 487
+//@   site call Build#1 assert signed-with-local-pwd: unbox(arg0[3], stun.MessageIntegrity).base == stiKey(a.localPwd)
+//@   site call Build#1 assert only-when-keeping: keeps(a.isControlling != 0, a.tieBreaker, remoteTieBreaker.Tiebreaker)
+//@   site call sendSTUN#1 assert sends-the-error: arg1 == roleConflictMsg && arg2 == local && arg3 == remote
+//@   site call Store#1 assert flip-only-when-losing: !keeps(a.isControlling != 0, a.tieBreaker, remoteTieBreaker.Tiebreaker)
+//@   site call Store#1 assert flips: arg1 == (a.isControlling == 0)
+//@   ensures keep-role: keeps(old(a.isControlling) != 0, a.tieBreaker, remoteTieBreaker.Tiebreaker) ==> a.isControlling == old(a.isControlling) && a.selector == old(a.selector)
+//@   ensures keep-sends-at-most-one: keeps(old(a.isControlling) != 0, a.tieBreaker, remoteTieBreaker.Tiebreaker) ==> a.gSent <= old(a.gSent) + 1
+//@   ensures switch-role: !keeps(old(a.isControlling) != 0, a.tieBreaker, remoteTieBreaker.Tiebreaker) ==> (a.isControlling != 0) == (old(a.isControlling) == 0)
+//@   ensures switch-silent: !keeps(old(a.isControlling) != 0, a.tieBreaker, remoteTieBreaker.Tiebreaker) ==> a.gSent == old(a.gSent)
+//@   ensures switch-selector: !keeps(old(a.isControlling) != 0, a.tieBreaker, remoteTieBreaker.Tiebreaker) && !a.lite ==> (a.isControlling != 0 ==> istype(a.selector, *controllingSelector)) && (a.isControlling == 0 ==> istype(a.selector, *controlledSelector))
+//@   ensures tiebreaker-stable: a.tieBreaker == old(a.tieBreaker)
+
+// Inductive lemma over the contract-level transition: two agents that start in
+// the same role with distinct tie-breakers end in opposite roles, and opposite
+// roles are absorbing. next(ctrl, tbL, tbR, peerRole) is the role after
+// processing a request whose role attribute is peerRole.
+//@ spec func nextRole(ctrl bool, tbL int, tbR int, peerCtrl bool) bool = ite(peerCtrl == ctrl, ite(keeps(ctrl, tbL, tbR), ctrl, !ctrl), ctrl)
+//@ lemma C05 conflictExactlyOneYields: forall ctrl bool, tbA int, tbB int :: tbA != tbB ==> (keeps(ctrl, tbA, tbB) != keeps(ctrl, tbB, tbA))
+//@ lemma C05 winnerNeverSwitches: forall ctrl bool, tbA int, tbB int, peer bool :: keeps(ctrl, tbA, tbB) ==> nextRole(ctrl, tbA, tbB, peer) == ctrl
+//@ lemma C05 loserSwitchesOnConflict: forall ctrl bool, tbA int, tbB int :: !keeps(ctrl, tbA, tbB) ==> nextRole(ctrl, tbA, tbB, ctrl) == !ctrl
+//@ lemma C05 oppositeRolesAbsorbing: forall ra bool, rb bool, tbA int, tbB int :: ra != rb ==> nextRole(ra, tbA, tbB, rb) == ra && nextRole(rb, tbB, tbA, ra) == rb
+//@ lemma C05 staleMessageCannotUnsettle: forall ctrl bool, tbA int, tbB int :: tbA != tbB && !keeps(ctrl, tbA, tbB) ==> nextRole(nextRole(ctrl, tbA, tbB, ctrl), tbA, tbB, ctrl) == !ctrl && keeps(ctrl, tbB, tbA)
